@@ -19,10 +19,18 @@ def isz(x):
     return isinstance(x, z3.ExprRef)
 
 
+def nice_fraction(x):
+    fr = Fraction(x)
+    nice = fr.limit_denominator(10**9)
+    return nice if float(nice) == float(x) else fr
+
+
 def tz(x):
     """z3 term of a Python value"""
     if isz(x):
         return x
+    if isinstance(x, Fraction):
+        return z3.RealVal(str(x))
     if isinstance(x, bool):
         return z3.BoolVal(x)
     if isinstance(x, int):
@@ -126,11 +134,11 @@ class Arr:
         self.strides = tuple(strides)
 
     @staticmethod
-    def zeros(shape, kind="double"):
+    def zeros(shape, kind="double", exact=False):
         n = 1
         for s in shape:
             n *= s
-        return Arr(shape, [0 if kind == "int" else 0.0 for _ in range(n)], kind=kind)
+        return Arr(shape, [0 if kind == "int" else (Fraction(0) if exact else 0.0) for _ in range(n)], kind=kind)
 
     @staticmethod
     def from_list(lst, kind="double"):
@@ -252,7 +260,7 @@ class Interp:
                 self.accesses.append(("w", id(arr.data), arr.off + sum(i * st for i, st in zip(arr._idx(idx), arr.strides))))
             old = arr.get(idx)
             if arr.kind == "double" and not isinstance(val, FV) and not isz(val) and isinstance(val, int) and not isinstance(val, bool):
-                val = float(val)
+                val = float(val) if self.concrete else Fraction(val)
             arr.set(idx, val if g is True else ITE(g, val, old))
         else:
             raise NotImplementedError(ast.dump(tgt))
@@ -342,6 +350,10 @@ class Interp:
         if isinstance(op, ast.Mult):
             return self._ar(a, b, lambda x, y: x * y)
         if isinstance(op, ast.Div):
+            if not isz(a) and not isz(b) and (isinstance(a, Fraction) or isinstance(b, Fraction)):
+                if b == 0:
+                    raise ZeroDivisionError("concrete division by zero in symbolic mode")
+                return Fraction(a) / Fraction(b)
             if not isz(a) and not isz(b):
                 if float(b) == 0.0:
                     # cdivision=True: IEEE semantics
@@ -354,7 +366,7 @@ class Interp:
                 b = int(b)
             if isinstance(b, int):
                 if not isz(a):
-                    return a**b
+                    return a**b  # exact for Fraction / int
                 r = None
                 for _ in range(abs(b)):
                     r = a if r is None else r * a
@@ -366,6 +378,10 @@ class Interp:
 
     @staticmethod
     def _ar(a, b, f):
+        if not isz(a) and not isz(b) and (isinstance(a, Fraction) or isinstance(b, Fraction)):
+            a = nice_fraction(a) if isinstance(a, float) else a
+            b = nice_fraction(b) if isinstance(b, float) else b
+            return f(a, b)
         if isz(a) or isz(b):
             ta, tb = tz(a), tz(b)
             if z3.is_int(ta) != z3.is_int(tb):
@@ -384,6 +400,9 @@ class Interp:
 
     def ev(self, n, fr, g=True):
         if isinstance(n, ast.Constant):
+            if isinstance(n.value, float) and not self.concrete:
+                # symbolic mode: source literals denote exact rationals; concrete arithmetic stays exact
+                return nice_fraction(n.value)
             return n.value
         if isinstance(n, ast.Name):
             if n.id in fr.env:
@@ -475,12 +494,21 @@ class Interp:
     def math1(self, name, x):
         if isinstance(x, FV):
             return FV(self.math1(name, x.val), x.nan)
-        if not isz(x):
+        if not isz(x) and self.concrete:
             x = float(x)
             try:
                 return {"sqrt": math.sqrt, "sin": math.sin, "cos": math.cos, "acos": math.acos}[name](x)
             except ValueError:
                 return math.nan
+        if not isz(x):
+            fx = Fraction(x) if not isinstance(x, float) else nice_fraction(x)
+            if name == "sqrt" and fx >= 0 and math.isqrt(fx.numerator) ** 2 == fx.numerator and math.isqrt(fx.denominator) ** 2 == fx.denominator:
+                return Fraction(math.isqrt(fx.numerator), math.isqrt(fx.denominator))
+            if fx == 0 and name in ("sin", "sqrt"):
+                return Fraction(0)
+            if fx == 0 and name == "cos":
+                return Fraction(1)
+            x = tz(fx)
         return UF[{"acos": "arccos"}.get(name, name)](treal(x))
 
     def evcall(self, n, fr, g):
@@ -497,7 +525,7 @@ class Interp:
             if f[1] in ("zeros", "empty"):
                 shp = args[0] if isinstance(args[0], tuple) else (args[0],)
                 kind = "int" if ("dtype" in kw and kw["dtype"] == ("np", "int64")) else "double"
-                return Arr.zeros(shp, kind)
+                return Arr.zeros(shp, kind, exact=not self.concrete)
             if f[1] == "asarray":
                 return args[0]
             raise NotImplementedError(f)
@@ -523,7 +551,7 @@ class Interp:
         if b in ("sqrt", "sin", "cos", "acos"):
             return self.math1(b, args[0])
         if b == "atan2":
-            if not any(isz(a) for a in args):
+            if not any(isz(a) for a in args) and self.concrete:
                 return math.atan2(*args)
             return UF["arctan2"](treal(args[0]), treal(args[1]))
         if b in ("fabs", "abs"):
@@ -546,7 +574,7 @@ class Interp:
     @staticmethod
     def evabs(x):
         if not isz(x):
-            return abs(x)
+            return abs(x)  # (Fraction stays exact)
         x = treal(x)
         return z3.If(x >= 0, x, -x)
 
